@@ -77,6 +77,14 @@ func main() {
 					extra = append(extra, t)
 				}
 			}
+			// hosts as clients send them: with a port, with a trailing dot
+			for _, q := range c.Reqs[:len(c.Reqs)/2] {
+				if q.Host != "" && !strings.ContainsAny(q.Host, ":[") && r.IntN(3) == 0 {
+					t := q
+					t.Host += []string{":8080", ":80", "."}[r.IntN(3)]
+					extra = append(extra, t)
+				}
+			}
 			c.Reqs = append(c.Reqs, extra...)
 			if r.IntN(3) == 0 {
 				c.Churn = r.Uint64() | 1
